@@ -284,7 +284,7 @@ def sec_convolve(rep):
 
     rep.under_contract(tmc.EvaluatedStructureFunctionTMC._convolve_FX, tmc.EvaluatedStructureFunctionTMC._h2, tmc.EvaluatedStructureFunctionTMC._g2, tmc.EvaluatedStructureFunctionTMC._k1, tmc.EvaluatedStructureFunctionTMC._k2, tmc.ESFTMC_F3._h3)
     sy = H.Sy(extra="xi")
-    pre = [sy.xi > 0, sy.xi < 1, sy.Q2 > 0]
+    pre = [sy.xi > 0, sy.xi < 1, sy.Q2 > 0, sy.x > sy.xi, sy.x <= 1]  # xi < x at finite target mass: the integrals start at xi, not at x
     for kind in KINDS:
         for meth, expk, expw in (("_h2", "F2", "1/u^2"), ("_g2", "F2", "(u-xi)/u^2"), ("_k1", "g1", "1/u^2"), ("_k2", "g1", "ln(u/xi)/u^2"), ("_h3", "F3", "1/u^2")):
             if meth == "_h3" and kind != "F3":
@@ -301,7 +301,7 @@ def sec_convolve(rep):
                 sf = SFStub(sy, kind, "bottom", 3)
                 clog = []
                 o = tmc.ESFTMCmap[kind].__new__(tmc.ESFTMCmap[kind])
-                o.sf, o.xi, o.Q2, o.x = sf, sy.xi, sy.Q2, sy.xi
+                o.sf, o.xi, o.Q2, o.x = sf, sy.xi, sy.Q2, sy.x
                 with rebind(*_shim(sy), (conv, "convolution", make_conv_stub(sy, clog))):
                     res = getattr(o, meth)()
                 acc = 0
